@@ -363,6 +363,9 @@ def _spec_value(k, v):
   return v
 
 
+_SPEC_VALUE = _spec_value
+
+
 def _same(a, b):
   """exact comparison of attribute values (ints, strings, floats, lists of floats)."""
   import numpy as np
@@ -389,17 +392,33 @@ def _one_attrs(c):
 
   radius = None if g['radius'] == [0, 1] else _f(g['radius'])
   impl = getattr(sh, g['spherical_harmonics_impl'])
-  grid = sh.Grid(longitude_wavenumbers=g['longitude_wavenumbers'], total_wavenumbers=g['total_wavenumbers'],
-                 longitude_nodes=g['longitude_nodes'], latitude_nodes=g['latitude_nodes'],
-                 latitude_spacing=g['latitude_spacing'], longitude_offset=_f(g['longitude_offset']),
-                 radius=radius, spherical_harmonics_impl=impl)
-  coords = cs.CoordinateSystem(grid, _vertical(v))
+  # The abstract configuration says nothing about how its numbers are represented: every case is
+  # instantiated with python numbers and with numpy / jax scalars (sizes read from array shapes,
+  # offsets inferred from float32 longitudes are realistic sources of the latter).
+  for rep in ('python', 'np64', 'np32'):
+    fl_t = {'python': float, 'np64': np.float64, 'np32': np.float32, 'jnp32': lambda x: jnp.float32(x)}[rep]
+    int_t = {'python': int, 'np64': np.int64, 'np32': np.int32, 'jnp32': np.int64}[rep]
+    brief['number_representation'] = rep
+    grid = sh.Grid(longitude_wavenumbers=int_t(g['longitude_wavenumbers']), total_wavenumbers=int_t(g['total_wavenumbers']),
+                   longitude_nodes=int_t(g['longitude_nodes']), latitude_nodes=int_t(g['latitude_nodes']),
+                   latitude_spacing=g['latitude_spacing'], longitude_offset=fl_t(_f(g['longitude_offset'])),
+                   radius=None if radius is None else fl_t(radius), spherical_harmonics_impl=impl)
+    coords = cs.CoordinateSystem(grid, _vertical(v))
+    cast = (lambda x: float(np.float32(x))) if rep in ('np32', 'jnp32') else float
+    _attrs_roundtrip(c, g, v, coords, bad, np, cs, xu, xarray, cast)
+  return out
+
+
+def _attrs_roundtrip(c, g, v, coords, bad, np, cs, xu, xarray, cast):
+  def _spec_value(k, x):      # numbers as stored in the chosen representation
+    y = _SPEC_VALUE(k, x)
+    return cast(y) if k in ('longitude_offset', 'radius') else y
   if coords.vertical.layers != c['layers']:
     bad('attrs:layers', f'{coords.vertical.layers} spec {c["layers"]}')
   attrs = coords.asdict()
   if sorted(attrs) != sorted(c['keys']):
     bad('asdict:keys', f'{sorted(attrs)} spec {sorted(c["keys"])}')
-    return out
+    return
   for k in c['keys']:
     want = _spec_value(k, c['attrs'][k])
     if not _same(attrs[k], want):
@@ -441,7 +460,6 @@ def _one_attrs(c):
   if not any(np.ndim(v) == 1 and np.size(v) == 1 for v in attrs.values()):
     ds2 = xarray.load_dataset(ds.to_netcdf())
     stage('from_netcdf', lambda: xu.coordinate_system_from_dataset(ds2))
-  return out
 
 
 replay_attrs = common.per_case(_one_attrs, 'attrs')
